@@ -206,6 +206,8 @@ func runC12(c *Check) {
 	ruleCodecsArePure(c, p, "C12-R10")
 	ruleDecodersWriteFreshStorage(c, p, "C12-R11")
 	ruleDecodersRefuseOnlyTheUnrepresentable(c, p, "C12-R12")
+	ruleListConversionsElementwise(c, p, "C12-R13")
+	rulePersistedCursorIsTheReturnedOne(c, p, "C12-R14")
 }
 
 // ruleCodecsArePure (C12-R10): the bytes of a value are a function of the value. The encoders,
@@ -1916,4 +1918,138 @@ func predicatesOnly(pkgPath string) ExpandOpts {
 		bt, ok := res.At(0).Type().Underlying().(*types.Basic)
 		return !ok || bt.Kind() != types.Bool
 	}}
+}
+
+// ruleListConversionsElementwise (C12-R13 = C03-R9): the helpers that convert a transaction list
+// between its Go and its wire form map element for element. The wire bytes of a Data are what the
+// proposer signs and what the commitment is taken of; a converter that filters on one side only
+// (drops empty transactions when encoding while the decoder keeps them) makes two different lists
+// share one signature payload and one commitment — a third party can alter a signed list.
+func ruleListConversionsElementwise(c *Check, p *Prog, rule string) {
+	c.Doc(rule, "EO: in every function of package types that converts between [][]byte and Txs, each iteration over the input writes the element into the output (an indexed store or an append): no path leads from the loop body's entry to the next iteration without it — no filtering on one side of the codec.")
+	n := 0
+	for _, fn := range p.Funcs {
+		pk := fnPkg(fn)
+		if pk == nil || pk.Pkg.Path() != rootPath+"/types" || fn.Blocks == nil || fn.Signature.Recv() != nil || fn.Parent() != nil {
+			continue
+		}
+		sig := fn.Signature
+		if sig.Params().Len() != 1 || sig.Results().Len() != 1 {
+			continue
+		}
+		a, b := sig.Params().At(0).Type().String(), sig.Results().At(0).Type().String()
+		isTxs := func(s string) bool { return strings.HasSuffix(s, "types.Txs") }
+		if !((a == "[][]byte" && isTxs(b)) || (isTxs(a) && b == "[][]byte")) {
+			continue
+		}
+		n++
+		g := BuildECFG(p, fn, ExpandOpts{MaxDepth: 0})
+		c.NoteGraph(g)
+		writes := g.Select(func(x *Node) bool {
+			if x.Kind != NInstr {
+				return false
+			}
+			if st, ok := x.In.(*ssa.Store); ok {
+				_, isIdx := st.Addr.(*ssa.IndexAddr)
+				return isIdx
+			}
+			return CallName(x) == "append"
+		})
+		inst := fnShort(fn) + " ⟂ element for element"
+		if len(writes) == 0 {
+			c.Unk(rule, inst, fnName(fn), "", "anchor lost: the conversion writes no element")
+			continue
+		}
+		hdr := loopHeaderOf(writes[0].In.Block())
+		if hdr == nil {
+			c.Unk(rule, inst, fnName(fn), "", "anchor lost: the conversion loop")
+			continue
+		}
+		head := g.headNode(writes[0].Ctx, hdr)
+		if head == nil {
+			c.Unk(rule, inst, fnName(fn), "", "anchor lost: the conversion loop's head")
+			continue
+		}
+		outside := func(x *Node) bool {
+			if x.In == nil || x == head {
+				return false
+			}
+			bb := x.In.Block()
+			return !(bb == hdr || loopHeaderOf(bb) == hdr)
+		}
+		c.Decide(rule, inst, fnName(fn), p.InstrPos(writes[0].In), "every iteration writes its element into the output",
+			"the conversion can pass an element over (a filter in the loop): the list on the wire is not the list in memory. The decoder keeps what this side drops, so two different transaction lists encode to the same bytes — the same signature payload, the same commitment: a list with injected entries verifies under the proposer's signature", g,
+			g.PathAvoiding(head.Succ, func(x *Node) bool { return x == head }, orPred(nodeSet(writes), outside)))
+	}
+	if n == 0 {
+		c.Unk(rule, "anchor-count", "", "", "anchor lost: no [][]byte <-> Txs conversion in package types")
+	}
+	c.MinInstances(rule, 2)
+}
+
+// rulePersistedCursorIsTheReturnedOne (C12-R14): the batch-cursor list the manager persists is the
+// one the sequencing layer just returned — the value a restarted node hands back to the sequencer
+// to continue from. Persisting the manager's own field is the same thing only after the field has
+// been given the returned list; written before the assignment, the store lags one batch behind
+// the memory and a restart replays a batch (or, with the based sequencer, rescans released heights).
+func rulePersistedCursorIsTheReturnedOne(c *Check, p *Prog, rule string) {
+	c.Doc(rule, "VP+EO: the value written under the last-batch-data key in the batch retrieval step derives from the BatchData of the GetNextBatch response; if it is read from the manager's own field instead, the store of the response's BatchData into that field precedes the write on every path.")
+	fn := p.Func(mgrM("retrieveBatch"))
+	if fn == nil {
+		for _, f := range funcsCalling(p, rootPath+"/block", func(n string) bool { return strings.HasSuffix(n, "sequencer.Sequencer).GetNextBatch") }) {
+			fn = f
+		}
+	}
+	if fn == nil {
+		c.Unk(rule, "batch retrieval", "", "", "anchor lost: the function that calls GetNextBatch")
+		return
+	}
+	g := BuildECFG(p, fn, ownPkgOpts(rootPath+"/block", 1))
+	c.NoteGraph(g)
+	fromResp := func(t *Term) bool {
+		return p.DeepContains(t, func(x *Term) bool {
+			return x.Op == "field" && x.Name == "BatchData" && strings.Contains(x.String(), "GetNextBatch(")
+		}, 3)
+	}
+	var puts []*Node
+	for _, sn := range g.Select(func(x *Node) bool { return CallName(x) == storeM("SetMetadata") }) {
+		keyConst, _ := constString(p, rootPath+"/pkg/store", "LastBatchDataKey")
+		if k := ArgTerm(sn, 1); k != nil && (strings.Contains(k.String(), "LastBatchDataKey") || (keyConst != "" && strings.Trim(k.unconv().Name, "\"") == keyConst)) {
+			puts = append(puts, sn)
+		}
+	}
+	if len(puts) == 0 {
+		c.Unk(rule, fnShort(fn)+" ⟂ persisted cursor", fnName(fn), "", "anchor lost: no write of the last-batch-data key in the retrieval step")
+		return
+	}
+	for i, sn := range puts {
+		sn := sn
+		v := ArgTerm(sn, 2)
+		inst := fnShort(fn) + " ⟂ persisted cursor is the returned one"
+		if i > 0 {
+			inst += fmt.Sprintf("#%d", i+1)
+		}
+		if v != nil && fromResp(v) {
+			c.OK(rule, inst, fnName(fn), p.InstrPos(sn.In), "the persisted value is computed from the response's BatchData", true)
+			continue
+		}
+		// read from a field of the manager: the field must hold the response's list by then
+		assigns := g.Select(func(x *Node) bool {
+			st, ok := x.In.(*ssa.Store)
+			if !ok || x.Kind != NInstr {
+				return false
+			}
+			if _, isField := st.Addr.(*ssa.FieldAddr); !isField {
+				return false
+			}
+			return fromResp(TermOf(st.Val, x.Ctx))
+		})
+		if len(assigns) == 0 {
+			c.Bad(rule, inst, fnName(fn), p.InstrPos(sn.In), "the value persisted as the batch cursor ("+trunc(v.String(), 80)+") does not derive from the response of GetNextBatch", nil)
+			continue
+		}
+		c.Decide(rule, inst, fnName(fn), p.InstrPos(sn.In), "the field that is persisted has been given the response's BatchData before",
+			"the batch cursor is persisted from the manager's field before that field is given the list the sequencer just returned: the store holds the previous cursor, one batch behind the memory — a restarted node hands the sequencer a stale cursor and the sequence does not continue where it stopped", g,
+			g.MustPrecede(nodeSet(assigns), func(x *Node) bool { return x == sn }))
+	}
 }
